@@ -30,6 +30,18 @@ func H_creader() {
 	}
 	vfAssert("cr-options-accepted", zr.Apply(opts...) == nil)
 	sizes := []int{0, 1, 3, 6, 7, 8, 40, 70000}
+	if len(in) > 65536 {
+		// multi-block source: make the buffer sizes that end exactly at the end of the first
+		// compressed block (header + size word + block [+ checksum]) part of the choice
+		var probe hSink
+		probe.failAt = -1
+		zw := NewWriter(&probe)
+		zw.Apply(append(o.options(), ConcurrencyOption(1))...)
+		zw.Write(in[:65536])
+		zw.Flush()
+		end := len(probe.buf)
+		sizes = []int{end - 1, end, end + 1, 100, 70000}
+	}
 	R := vfParam("R")
 	var out []byte
 	done := false
